@@ -291,3 +291,10 @@ Proof.
       * intros H m' q' [H1|H1]; [inversion H1; subst; exact E | eauto].
       * intros H m' q' H1. apply (H m' q'). now right.
 Qed.
+
+Lemma example_default_options :
+  exists st full,
+    accepts_opt (fun _ => false) g_ex c_ex [0; 1; 2; 3] [ExB 3; ExE 3 true; TagB 3; TagE 3; Ret true]
+      = Some (st, full) /\
+    returned st = Some true /\ tag st = Some 3 /\ In (Cb CSkip 3) full.
+Proof. eexists. eexists. split; [vm_compute; reflexivity|]. repeat split; simpl; auto. Qed.
